@@ -9,4 +9,5 @@ git -C $WT checkout -- . ; git -C $WT clean -fdq
 git -C $WT apply $PATCH || { echo "patch does not apply"; exit 3; }
 VERIF_ALT_REPO=$WT ./bin/vcheck -p $P -tier $T 2>&1 | grep -E "^(VIOLATION|SUMMARY|INCONCLUSIVE|KNOWN)" | cut -c1-330 | head -${4:-8}
 git -C $WT checkout -- . ; git -C $WT clean -fdq
-rm -f .build/bin/vworker*-alt-* .build/alt-*.mod .build/alt-*.sum
+TAG=$(printf %s "$WT" | sha256sum | cut -c1-10)
+rm -f .build/bin/vworker*-alt-$TAG .build/alt-$TAG.mod .build/alt-$TAG.sum   # only this worktree's files: other properties may be running in parallel
